@@ -30,6 +30,17 @@ func notClaimed() [][2]string {
 func props() []prop {
 	return []prop{
 		{
+			ID: "C20", Level: "exploration",
+			LevelText:   "Exact reference-model comparison in virtual time: PRNG programs of Once/Loop/Cron/Cancel/Clear/Kill/fail-and-restart (incl. cancellations aimed at firing instants and malformed cron expressions) run on the real scheduler stack (vivid Scheduler -> go-quartz -> mailbox) inside a synctest bubble whose clock is exact; every delivery (and dead letter) of a scheduled message is recorded with its virtual instant and compared with the model: required firings exactly once, nothing early, nothing at/after cancel, clear, owner termination or restart (a tie at the same instant is accepted either way), parse errors for invalid cron, not-found for unknown cancel, original message value, through the mailbox (handler overlap monitor).",
+			LevelNote:   "Trusted: the 60-line reference model, synctest's clock, the fixed pool of cron expressions go-quartz itself rejects. Re-using a live reference on the same actor is unspecified and not generated. go-quartz's 100 ms 'outdated job' rule needs real scheduler stalls and cannot occur in virtual time.",
+			Technique:   "reference-model comparison of recorded delivery instants under an exact virtual clock",
+			DesignRef:   "DESIGN.md §4 C20",
+			Assumptions: with("ties between a firing instant and a cancelling action at the same virtual instant are accepted either way"),
+			Units: []unit{
+				{Check: "scheduler", Pkg: "internal/actor", Shards: [2]int{8, 16}, Timeout: [2]time.Duration{6 * min, 40 * min}, CrashKey: "c20-crash", OnlyKinds: []string{"c20-", "harness-"}},
+			},
+		},
+		{
 			ID: "C05", Level: "exploration",
 			LevelText:   "A per-actor trace automaton (OnLaunch first in every incarnation, no second OnLaunch, OnKill before the own OnKilled, nothing after the own OnKilled unless a restart follows, OnLaunch sent by the parent to the restarted actor itself, behaviour stack reset, fresh instance with a provider, OnLaunch count == spawns + restarts, silent instance when ActorOf failed) runs over the complete recorded traces of restart-centred PRNG histories, the general histories and both enumerated supervision matrices, all executed on the real system in synctest bubbles.",
 			LevelNote:   "Trusted: recording behaviours (every message an actor's behaviour sees is logged with instance id and behaviour tag), synctest quiescence. The register->OnLaunch window of ActorOf (a message sent through a parsed ref overtaking OnLaunch) needs a preemption inside ActorOf and is only reachable by the inject tier, see DESIGN §3 D23.",
